@@ -195,6 +195,22 @@ fn verif_grid() {
             });
         }
     }
+    // MIN / MAX of an array-valued argument and AVG of REAL values whose sums are exact: the same in every order
+    {
+        let def = "CREATE TABLE t(line = '^k=(\\\\w+) a=([0-9]*),([0-9]*) r=(\\\\S+)$', line[1] => k TEXT, line[2], line[3] => xs INT[], line[4] => r REAL);";
+        let lines = vec!["k=a a=2,1 r=0.25", "k=a a=1,9 r=1.75", "k=a a=3,0 r=4.5", "k=a a=1,2 r=0.5", "k=b a=,5 r=2.0"];
+        for (si, st) in ["SELECT k, MIN(xs) AS lo, MAX(xs) AS hi FROM t GROUP BY k", "SELECT k, AVG(r) AS a, SUM(r) AS s FROM t GROUP BY k", "SELECT AVG(r) AS a FROM t WHERE k = 'a'", "SELECT MAX(xs) AS hi FROM t"].iter().enumerate() {
+            let l2 = lines.clone();
+            g.case(&format!("arrays-and-exact-reals-{}", si), move || {
+                let reference = match q(def, st, &l2) { Outcome::Lines(l, _) => l, other => return Err(format!("{}: {:?}", st, other)) };
+                if si == 2 && reference != vec![r#"{"a":1.75}"#.to_owned()] { return Err(format!("{} over 0.25, 1.75, 4.5, 0.5 printed {:?}; the sum 7 and the quotient 1.75 are exact", st, reference)); }
+                for p in permutations(&l2) {
+                    match q(def, st, &p) { Outcome::Lines(l, _) => if l != reference { return Err(format!("{} over {:?} prints {:?}; over the permutation {:?} it prints {:?}", st, l2, reference, p, l)); }, other => return Err(format!("{:?}", other)) }
+                }
+                Ok(())
+            });
+        }
+    }
     // a line is the same row wherever it stands: first or last in the input, first in a second file (a line that starts with a byte order mark, blanks, a tab)
     {
         let def = "CREATE TABLE t(line = split ',', line[1] => k TEXT, line[2] => v INT);";
